@@ -108,10 +108,19 @@ void TypeChecker::checkTypes()
     visit(tree_->rootNode());
 }
 
+// A typedef name that was never resolved (an unknown name, or one in a part of the
+// program the earlier phases didn't reach) stands for the error type.
+const Type* TypeChecker::resolvedSynonymOf(const Type* tydefNameTy)
+{
+    static const ErrorType unresolvedTy;
+    auto resolvedTy = tydefNameTy->asTypedefNameType()->resolvedSynonymizedType();
+    return resolvedTy ? resolvedTy : &unresolvedTy;
+}
+
 const Type* TypeChecker::resolved(const Type* ty)
 {
     if (ty->kind() == TypeKind::TypedefName)
-        return ty->asTypedefNameType()->resolvedSynonymizedType();
+        return resolvedSynonymOf(ty);
     return ty;
 }
 
@@ -123,7 +132,7 @@ const Type* TypeChecker::unqualifiedAndResolved(const Type* ty)
                 ty = ty->asQualifiedType()->unqualifiedType();
                 break;
             case TypeKind::TypedefName:
-                ty = ty->asTypedefNameType()->resolvedSynonymizedType();
+                ty = resolvedSynonymOf(ty);
                 break;
             default:
                 return ty;
@@ -138,7 +147,7 @@ bool TypeChecker::isAssignableType(const Type* ty, const SyntaxNode* node)
             diagReporter_.CannotAssignToExpressionOfConstQualifiedType(node->lastToken());
             return false;
         case TypeKind::TypedefName:
-            return isAssignableType(ty->asTypedefNameType()->resolvedSynonymizedType(), node);
+            return isAssignableType(resolvedSynonymOf(ty), node);
         case TypeKind::Array:
             diagReporter_.CannotAssignToExpressionOfArrayType(node->lastToken());
             return false;
@@ -404,7 +413,7 @@ bool TypeChecker::typesAreCompatible(
                 case TypeKind::TypedefName:
                     return typesAreCompatible(
                                 ty1,
-                                ty2->asTypedefNameType()->resolvedSynonymizedType(),
+                                resolvedSynonymOf(ty2),
                                 treatVoidAsAny,
                                 ignoreQualifier);
                 case TypeKind::Tag:
@@ -430,7 +439,7 @@ bool TypeChecker::typesAreCompatible(
                 case TypeKind::TypedefName:
                     return typesAreCompatible(
                                 ty1,
-                                ty2->asTypedefNameType()->resolvedSynonymizedType(),
+                                resolvedSynonymOf(ty2),
                                 treatVoidAsAny,
                                 ignoreQualifier);
                 case TypeKind::Tag:
@@ -510,7 +519,7 @@ bool TypeChecker::typesAreCompatible(
                 case TypeKind::TypedefName:
                     return typesAreCompatible(
                                 ty1,
-                                ty2->asTypedefNameType()->resolvedSynonymizedType(),
+                                resolvedSynonymOf(ty2),
                                 treatVoidAsAny,
                                 ignoreQualifier);
                 case TypeKind::Tag:
@@ -544,7 +553,7 @@ bool TypeChecker::typesAreCompatible(
                 case TypeKind::TypedefName:
                     return typesAreCompatible(
                                 ty1,
-                                ty2->asTypedefNameType()->resolvedSynonymizedType(),
+                                resolvedSynonymOf(ty2),
                                 treatVoidAsAny,
                                 ignoreQualifier);
                 case TypeKind::Tag:
@@ -572,7 +581,7 @@ bool TypeChecker::typesAreCompatible(
                 case TypeKind::TypedefName:
                     return typesAreCompatible(
                                 ty1,
-                                ty2->asTypedefNameType()->resolvedSynonymizedType(),
+                                resolvedSynonymOf(ty2),
                                 treatVoidAsAny,
                                 ignoreQualifier);
                 case TypeKind::Tag: {
@@ -600,7 +609,7 @@ bool TypeChecker::typesAreCompatible(
                 case TypeKind::TypedefName:
                     return typesAreCompatible(
                                 ty1,
-                                ty2->asTypedefNameType()->resolvedSynonymizedType(),
+                                resolvedSynonymOf(ty2),
                                 treatVoidAsAny,
                                 ignoreQualifier);
                 case TypeKind::Tag:
@@ -630,7 +639,7 @@ bool TypeChecker::typesAreCompatible(
                 case TypeKind::TypedefName:
                     return typesAreCompatible(
                                 ty1,
-                                ty2->asTypedefNameType()->resolvedSynonymizedType(),
+                                resolvedSynonymOf(ty2),
                                 treatVoidAsAny,
                                 ignoreQualifier);
                 case TypeKind::Tag:
